@@ -14,7 +14,7 @@ V = LinExpr.var
 C = LinExpr.const
 
 MAX_DEPTH = 60
-STATES_CAP = 12          # join when more states than this wait at one block
+STATES_CAP = 512          # join when more states than this wait at one block
 
 
 class Unsupported(Exception):
@@ -383,6 +383,8 @@ class Interp:
             if size == 1:
                 v = self.byte_at(st, p)
                 return v
+            if self.models.e3 and size in (2, 4, 8, 16):
+                return TermV(('load', p.r, st.store.nf(p.off), size))
             return self.fresh_int(st, ty, 'mem')
         if ty.get('kind') == 'adt' and ty.get('simd'):
             return TermV(('load', p.r, st.store.nf(p.off), size))
@@ -812,6 +814,9 @@ class Interp:
             s.add_eq(atom[1])
         elif k == 'ne':
             s.add_ne(atom[1])
+            if self.models.e3 and 'search' in st.ghost:
+                from . import e3
+                e3.on_ne(self, st, atom[1])
             e = s.nf(atom[1])
             # x != 0 with x >= 0 known  ->  x >= 1  (and symmetric)
             if s.entails_le(-e):
@@ -1175,6 +1180,13 @@ class Interp:
 
     def adapt_args(self, callee, args, st):
         n = callee.arg_count
+        if callee.j.get('def_kind') == 'Closure' and len(args) == 2 and isinstance(args[1], AdtV) \
+                and not isinstance(args[1].tid, tuple) and self.P.types[args[1].tid]['kind'] == 'tuple' and args[1].fields is not None:
+            # rust-call ABI: the closure's own parameters arrive packed in one tuple
+            if not (n == 2 and callee.locals[2] == args[1].tid):
+                spread = [args[0]] + list(args[1].fields)
+                if len(spread) == n:
+                    return spread
         if len(args) == n:
             return args
         # rust-call: (self, (a, b, c)) -> (self, a, b, c)
